@@ -182,8 +182,27 @@ pub fn cache_dir() -> PathBuf {
     let _ = std::fs::create_dir_all(&d);
     d
 }
+/// Root of this run's scratch files: a per-run directory (removed by the parent at the end of the run) on
+/// tmpfs when /dev/shm is usable — the checks rewrite small pcap files millions of times and a journalling
+/// file system turns every truncate-and-rewrite into a synchronous flush — else under /verif/.cache.
+pub fn scratch_root() -> PathBuf {
+    if let Ok(r) = std::env::var("MC_SCRATCH_ROOT") {
+        return PathBuf::from(r);
+    }
+    let shm = Path::new("/dev/shm");
+    let base = if shm.is_dir() && std::fs::create_dir_all(shm.join("p2sh-verif")).is_ok() { shm.join("p2sh-verif") } else { cache_dir().join("scratch") };
+    let root = base.join(format!("run-{}", std::process::id()));
+    let _ = std::fs::create_dir_all(&root);
+    std::env::set_var("MC_SCRATCH_ROOT", &root);
+    root
+}
+pub fn remove_scratch_root() {
+    if let Ok(r) = std::env::var("MC_SCRATCH_ROOT") {
+        let _ = std::fs::remove_dir_all(r);
+    }
+}
 pub fn scratch_dir(tag: &str) -> PathBuf {
-    let d = cache_dir().join("scratch").join(format!("{}-{}", tag, std::process::id()));
+    let d = scratch_root().join(format!("{}-{}", tag, std::process::id()));
     let _ = std::fs::create_dir_all(&d);
     d
 }
@@ -397,6 +416,8 @@ struct ShardResult {
     /// cases on which the worker died / hung: (idx, how)
     crashes: Vec<(u64, String)>,
     machinery_errors: Vec<String>,
+    /// cases that overran the horizon once but completed when re-run alone with a longer one
+    slow_confirmed: u64,
 }
 
 fn read_progress(path: &Path) -> Option<u64> {
@@ -533,7 +554,7 @@ fn run_child(
 }
 
 fn run_shard(exe: &Path, p_id: &str, tier: Tier, shard: u64, of: u64, total: u64, horizon: u64) -> ShardResult {
-    let mut res = ShardResult { sum: Summary::default(), stopped_early: None, crashes: vec![], machinery_errors: vec![] };
+    let mut res = ShardResult { sum: Summary::default(), stopped_early: None, crashes: vec![], machinery_errors: vec![], slow_confirmed: 0 };
     let npos = if total > shard { (total - shard + of - 1) / of } else { 0 };
     let progress = cache_dir().join(format!("progress-{}-{}-{}-{}", p_id, tier.name(), std::process::id(), shard));
     let mut from = 0u64;
@@ -560,6 +581,18 @@ fn run_shard(exe: &Path, p_id: &str, tier: Tier, shard: u64, of: u64, total: u64
                         from, pos, shard, crash2, merr2
                     ));
                     break;
+                }
+            }
+            // a case that overran the horizon is re-run alone with a much longer one before it is
+            // called non-terminating: a stalled machine must not become a verdict
+            if how.starts_with("fails to terminate") {
+                let long = std::cmp::max(30, horizon * 4);
+                let (sum3, _, _) = run_child(exe, p_id, tier, shard, of, pos, pos + 1, &progress, long);
+                if let Some(s) = sum3 {
+                    res.sum.merge(&s);
+                    res.slow_confirmed += 1;
+                    from = pos + 1;
+                    continue;
                 }
             }
             res.crashes.push((shard + of * pos, how));
@@ -694,6 +727,7 @@ pub fn parent_main(p: &dyn Property, tier: Tier) -> RunResult {
             "outcome_classes": top_classes,
             "skipped_unspecified": sum.skipped,
             "known_findings_seen": known_seen,
+            "cases_over_horizon_that_completed_when_rerun_alone": results.iter().map(|r| r.slow_confirmed).sum::<u64>(),
             "workers": nworkers,
             "explanation": "every index of the bounded space was executed on the real implementation (see rule/bounds); seed is unused: nothing is random",
         },
